@@ -8,6 +8,7 @@ R14c the payload of an r-send is taken only from the claimed sender, malformed t
      before any table is touched,
 R14d the delivered value is the stored payload and its digest was compared with the agreed one
      (ready path), the answer's digest was compared (answer path), or n-t answers agree,
+R14f an l-deliver answer vouches only for slots this party delivered itself (s < deliver_s[who]),
 R14e every delivery is for the current channel ID, in FIFO mode for the expected sequence number,
      and advances that sequence number; DeliverFrom hands out a buffered value only for the
      current ID."""
@@ -249,6 +250,36 @@ def run(ctx):
             any(Tb.node(fa)[0] == 'truthy' and Tb.node(Tb.node(fa)[1])[0] == 'mc' and Tb.node(Tb.node(fa)[1])[1].endswith('::Deliver') for fa in st.facts)
         (ctx.ok if idok else ctx.bad)('R14e', 'R14e:DeliverFrom:%d' % nd, 'sender-specific delivery hands out a value only for the current channel ID (or straight from Deliver)' if idok else
                                       'DeliverFrom returns a buffered value without comparing its saved channel ID with the current one', g, line=n_.line)
+
+    # ---------------------------------------------------------------- R14f vouching for a slot
+    # an l-deliver answer carries the stored payload of a slot to a party that delivers it on n-t such
+    # answers without a ready quorum of its own: in FIFO mode it may be sent only for slots this party
+    # has itself delivered (s < deliver_s[who]); for the slot it is still waiting for the stored
+    # payload is merely what the claimed sender put into its r-send
+    nf = 0
+    for nid, ev in sorted(a.all_events('mcall'), key=lambda x: (x[1][4], x[0])):
+        if not ev[1].endswith('::Send') or not ev[3]:
+            continue
+        msg = ev[3][0]
+        if not T.contains(msg, lambda z: z == ('this', 'l_deliver')):
+            continue
+        nf += 1
+        st = a.instate[nid]
+        payload_stored = 'mbar' in T.show(msg, 6)
+        strict = False
+        for fa in st.facts:
+            fn_ = T.node(fa)
+            if fn_[0] == 'if' and T.node(fn_[1]) == ('truthy', T.mk('this', 'fifo')):
+                fn_ = T.node(fn_[2])
+            if fn_[0] == 'rel' and fn_[1] == '<' and 'deliver_s' in T.show(fn_[3], 3) and 'deliver_s' not in T.show(fn_[2], 3):
+                strict = True
+        okf = strict and payload_stored
+        (ctx.ok if okf else ctx.bad)('R14f', 'R14f:l_retrieve:answer#%d' % nf,
+                                     'an l-deliver answer carries the stored payload and is sent in FIFO mode only for slots already delivered here (s < deliver_s[who])' if okf else
+                                     ('an l-deliver answer is sent for a slot this party has not delivered itself (no guard s < deliver_s[who] in FIFO mode): n-t such answers '
+                                      'make the requester deliver a slot that no ready quorum exists for' if payload_stored else
+                                      'an l-deliver answer does not carry the stored payload'), f, line=ev[4])
+    ctx.floor('R14f', nf, 1)
 
 
 def chain_back(a, node, limit=60):
